@@ -10,6 +10,7 @@ export VERIF_ROOT=$ROOT
 REPO=${VERIF_REPO:-/repo}
 BIN=$ROOT/bin
 MODFLAG=""
+MODFLAG_OWN=""
 if [ "$REPO" != "/repo" ]; then
   # scratch tree: same harness, replace directives rewritten; separate binaries and evidence
   tag=$(echo "$REPO" | tr '/' '_')
@@ -18,6 +19,9 @@ if [ "$REPO" != "/repo" ]; then
   sed "s#=> /repo#=> $REPO#" harness/go.mod > "$BIN/go.mod"
   cp harness/go.sum "$BIN/go.sum"
   MODFLAG="-modfile=$BIN/go.mod"
+  sed "s#=> /repo#=> $REPO#" harness/own/go.mod > "$BIN/own.go.mod"
+  cp harness/own/go.sum "$BIN/own.go.sum"
+  MODFLAG_OWN="-modfile=$BIN/own.go.mod"
   export VERIF_BIN=$BIN
   export VERIF_EVIDENCE=${VERIF_EVIDENCE:-$BIN/evidence}
 fi
@@ -27,13 +31,19 @@ build() { # build <driver> [race]
   local d=$1 out="$BIN/$1" flags=""
   if [ "${2:-}" = race ]; then out="$out.race"; flags="-race"; fi
   local tmp="$out.tmp.$$"
+  if [ -d harness/own/cmd/$d ]; then
+    # drivers of the second harness module: a library module linked with the dependency versions its own go.mod declares
+    (cd harness/own && go build $MODFLAG_OWN -tags verif $flags -o "$tmp" ./cmd/$d) || { echo "BUILD-FAILURE driver=$d"; rm -f "$tmp"; return 1; }
+    mv -f "$tmp" "$out"
+    return 0
+  fi
   (cd harness && go build $MODFLAG -tags verif $flags -o "$tmp" ./cmd/$d) || { echo "BUILD-FAILURE driver=$d"; rm -f "$tmp"; return 1; }
   mv -f "$tmp" "$out"
 }
 
 if [ "${1:-}" = replay ]; then
   build hrun || exit 3
-  for d in hcore hcrypto hbinance; do [ -d harness/cmd/$d ] && { build $d || exit 3; }; done
+  for d in hcore hcrypto hbinance hpsown; do { [ -d harness/cmd/$d ] || [ -d harness/own/cmd/$d ]; } && { build $d || exit 3; }; done
   exec "$BIN/hrun" -replay "$2"
 fi
 
@@ -42,7 +52,8 @@ TIER=${2:-quick}
 build hrun || exit 3
 case "$ID" in
   C02|C03|C04|C06|C07|C12|C14|C15|C16|C17) DRIVERS="hcore" ;;
-  C05|C08|C09|C18) DRIVERS="hcrypto" ;;
+  C05|C09|C18) DRIVERS="hcrypto" ;;
+  C08) DRIVERS="hcrypto hpsown" ;;
   C19) DRIVERS="hbinance" ;;
   C01) DRIVERS="hcrypto hbinance" ;;
   C10|C11|C13) DRIVERS="hcore hcrypto hbinance" ;;
@@ -51,7 +62,7 @@ case "$ID" in
 esac
 for d in $DRIVERS; do
   name=${d%%:*}; mode=""; [ "$d" != "$name" ] && mode=race
-  [ -d harness/cmd/$name ] || continue
+  [ -d harness/cmd/$name ] || [ -d harness/own/cmd/$name ] || continue
   build $name $mode || exit 3
 done
 "$BIN/hrun" -prop "$ID" -tier "$TIER"
